@@ -427,6 +427,9 @@ TT = 'bloch::compiler::TokenType::'
 TYPEAHEAD = [
     ('Identifier Identifier Semicolon', True, 'Foo x;'),
     ('Int Identifier Equals IntegerLiteral Semicolon', True, 'int x = 1;'),
+    ('Float Identifier Semicolon', True, 'float x;'), ('Long Identifier Semicolon', True, 'long x;'), ('Char Identifier Semicolon', True, 'char x;'),
+    ('String Identifier Semicolon', True, 'string x;'), ('Bit Identifier Semicolon', True, 'bit x;'), ('Qubit Identifier Semicolon', True, 'qubit x;'),
+    ('Boolean Identifier Semicolon', True, 'boolean x;'), ('Qubit LBracket IntegerLiteral RBracket Identifier Semicolon', True, 'qubit[2] r;'),
     ('Identifier Less Identifier Greater Identifier Semicolon', True, 'Box<T> b;'),
     ('Identifier Less Int Greater Identifier Equals', True, 'Box<int> b ='),
     ('Identifier Less Identifier Less Int Greater Greater Identifier Semicolon', True, 'Box<Box<int>> b;'),
@@ -494,6 +497,49 @@ def _typeahead_table(prog, chk):
         if got:
             bad.append('`a < b <%s> c > d` is read as `Type<…> name`' % K)
     chk.count('non-type token kinds tried inside `<…>`', nfam, 40)
+    if getattr(chk, 'tier', 'quick') == 'thorough':
+        # thorough tier: the same family in more surroundings — the non-type token at every position of a nested argument list
+        # (`a < b < c K > > d`, `a < K b > c`, `a < b , K c > d`, `a < b [ K ] > d`), and declarations that must still be recognised
+        # with every type token in the list
+        shapes = [('Identifier Less Identifier Less Identifier %s Greater Greater Identifier Semicolon', False),
+                  ('Identifier Less %s Identifier Greater Identifier Semicolon', False),
+                  ('Identifier Less Identifier Comma %s Identifier Greater Identifier Semicolon', False),
+                  ('Identifier Less Identifier LBracket %s RBracket Greater Identifier Semicolon', False),
+                  ('Identifier Dot Identifier Less Identifier %s Identifier Greater Identifier Equals', False)]
+        nth = 0
+        for shape, want in shapes:
+            for K in sorted(known or []):
+                if K in TYPE_TOKENS or K == 'Eof':
+                    continue
+                names = (shape % K).split()
+                nth += 1
+                this = Obj(m_tokens=[Obj(type=TT + t, value='', line=1, column=1) for t in names] + [Obj(type=TT + 'Eof', value='', line=1, column=1)], m_current=0)
+                try:
+                    got = Interp(prog, {}, max_steps=20000).call_fn_env(ta, [], {'this': this})
+                except OutOfRange as ex:
+                    bad.append('%s: %s' % (' '.join(names), ex))
+                    continue
+                except Unsupported as ex:
+                    raise AnalysisBroken('abstract evaluation of the declaration look-ahead: %s' % ex)
+                if bool(got) != want:
+                    bad.append('`%s` is classified as %s' % (' '.join(names), 'a declaration' if got else 'an expression'))
+        decls = ['Identifier Less %s Greater Identifier Semicolon' % t for t in ('Int', 'Float', 'Long', 'Char', 'String', 'Bit', 'Qubit', 'Boolean', 'Identifier')] + \
+                ['Identifier Less Identifier Dot Identifier Greater Identifier Semicolon', 'Identifier Less Int LBracket RBracket Greater Identifier Semicolon',
+                 'Identifier Less Identifier Less Identifier Comma Int Greater Comma Identifier Greater Identifier Equals',
+                 'Identifier Less Int LBracket IntegerLiteral RBracket Greater Identifier Semicolon']
+        for d_ in decls:
+            names = d_.split()
+            nth += 1
+            this = Obj(m_tokens=[Obj(type=TT + t, value='', line=1, column=1) for t in names] + [Obj(type=TT + 'Eof', value='', line=1, column=1)], m_current=0)
+            try:
+                got = Interp(prog, {}, max_steps=20000).call_fn_env(ta, [], {'this': this})
+            except (OutOfRange, Unsupported) as ex:
+                bad.append('%s: %s' % (d_, ex))
+                continue
+            if not got:
+                bad.append('`%s` (a declaration) is classified as an expression' % d_)
+        n += nth
+        chk.extra['typeahead_thorough_patterns'] = nth
     chk.extra['typeahead_patterns'] = n
     chk.ob('R14.6', ta, ta.ln, not bad,
            'the look-ahead that decides "declaration or expression statement" agrees with the grammar on %d statement-start token patterns; misclassified: %s' % (n, bad[:4]),
@@ -510,6 +556,7 @@ def _tested_tokens(prog, f, testers):
     for which a token-kind predicate it calls (`isPrimitiveTypeToken(peek().type)`) is true — the predicate is evaluated from its own
     syntax tree on every enumerator"""
     toks = set()
+    in_closures = {id(y) for lam in SX.walk(f.body) if lam.get('k') == 'lambda' for y in SX.walk(lam)}
     enum = [v for k_, v in prog.facts.enums.items() if k_.endswith('::TokenType')]
     consts = enum[0]['constants'] if enum else []
     ename = enum[0]['name'] if enum else ''
@@ -523,7 +570,7 @@ def _tested_tokens(prog, f, testers):
             for c in SX.walk(n['body']):
                 if c['k'] == 'case' and SX.is_node(c.get('v')) and SX.strip(c['v']).get('kind') == 'enum':
                     toks.add(SX.strip(c['v'])['name'].split('::')[-1])
-        if n['k'] == 'bin' and n.get('op') in ('==', '!='):
+        if n['k'] == 'bin' and n.get('op') in ('==', '!=') and id(n) not in in_closures:
             for x in (SX.strip(n['l']), SX.strip(n['r'])):
                 if SX.is_node(x) and x.get('k') == 'ref' and x.get('kind') == 'enum' and '::TokenType::' in x.get('name', ''):
                     toks.add(x['name'].split('::')[-1])
